@@ -183,6 +183,13 @@ fn main() {
             } }
         }
     }
+    // value sweep for the digest-slicing functions: 64 distinct values (about one digest in 16 has a leading zero nibble or
+    // digit, i.e. is shorter than the nominal width) x lengths around every nominal width
+    for i in 0..64 { for len in [0usize, 1, 15, 16, 17, 19, 20, 21, 64] {
+        for call in [format!("hash(value='x{i}', length={len})"), format!("hash_int(value='x{i}', length={len})"), format!("hash_int(value='x{i}', length={len}, allow_leading_zero=true)"), format!("prefix(value='x{i}', length={len})")] {
+            jobs.push((a(&["version", "--source", "stdin", "--output-template", &format!("{{{{ {call} }}}}")]), Some(valid_doc.clone())));
+        }
+    }}
     let s_a = jobs.par_iter().map(|(args, stdin)| { let mut st = Stats::default(); inproc(&ctx, args, stdin.as_deref(), &mut st); st }).reduce(Stats::default, Stats::merge);
 
     // (b) process slice: strided subset of (a) through the real binary, plain and with -v; stdout must be identical
